@@ -32,7 +32,7 @@ from prompt_toolkit.validation import ValidationError, Validator
 
 ID = "C15"
 DRIVER = "drv_c15"
-PROPS = ["Ptk.Props.C15"]
+PROPS = ["Ptk.Props.C15", "Ptk.Props.C15Inv"]
 LEVEL_TEXT = ("Lean 4 invariants over a labelled transition system of Buffer's completer / validator / "
               "auto-suggest coroutines (cut at their awaits) interleaved with user edits: every reachable "
               "state, after any finite schedule, has text = original + selected completion, completions "
@@ -397,38 +397,16 @@ class Sim:
 
 
 # ------------------------------------------------------------------ protocol lines
-def detect_fix() -> int:
-    """Does the tree under test contain the repaired `async_completer` (the single no-op
-    completion is kept while it is selected)?  Decided by running the witness schedule on the
-    real code, not by looking at the source."""
-    case = {"cfg": {"cwt": 0, "hasV": 0, "vwt": 0, "hasS": 0}, "comp": [[3, True, ""]], "text": "foo", "cur": 3,
-            "ops": []}
-    sim = Sim(case)
-    try:
-        for op in (["startc", 0], ["start", 0], ["rel", "c"], ["next", 1, 0], ["rel", "c"]):
-            sim.apply(op)
-        cs = sim.buf.complete_state
-        return 0 if (cs is not None and cs.complete_index is not None
-                     and cs.complete_index >= len(cs.completions)) else 1
-    finally:
-        sim.close()
-
-
-_FIX = None
-
-
-def fix_flag() -> int:
-    global _FIX
-    if _FIX is None:
-        _FIX = detect_fix()
-    return _FIX
+# the model's `fixD1` switch: 1 = the repaired async_completer (commit 279c220), which is what
+# /repo contains; the unrepaired variant stays in the model for the counterexample theorem
+FIX_D1 = 1
 
 
 def init_line(case) -> str:
     cfg = dict(DEFAULT_CFG, **case.get("cfg", {}))
     v = case.get("valid", (1, 3, 0))
     s = case.get("sugg", (0, 2, 0, "!"))
-    parts = ["init", cfg["cwt"], cfg["hasV"], cfg["vwt"], cfg["hasS"], cfg["maxN"], fix_flag(),
+    parts = ["init", cfg["cwt"], cfg["hasV"], cfg["vwt"], cfg["hasS"], cfg["maxN"], FIX_D1,
              v[0], v[1], v[2], s[0], s[1], s[2], enc_str(s[3]),
              enc_str(case["text"]), case["cur"], len(case["comp"])]
     for back, echo, lit in case["comp"]:
